@@ -71,8 +71,8 @@ def relations(case, ctx):
         ex0 = {"config": case, "weight": weight}
         T = lambda D, **kw: np.asarray(ctx.call(im.transform, np.array(D, dtype=float).reshape(-1, 2), **kw))  # noqa: E731
         single = [T([p]) for p in POINTS]
-        wts = [abs(float(im.weight(np.array([p[0]]), np.array([p[1] - p[0]]), **im.weight_params)[0])) for p in POINTS]
-        nonneg = weight[0] != "user" or True
+        swts = [float(im.weight(np.array([p[0]]), np.array([p[1] - p[0]]), **im.weight_params)[0]) for p in POINTS]
+        wts = [abs(w) for w in swts]
         # empty diagram
         for empty in (np.zeros((0, 2)), [], np.array([])):
             e = np.asarray(ctx.call(im.transform, empty))
@@ -110,7 +110,7 @@ def relations(case, ctx):
                     ctx.violation("zero-weight-point", "a point of zero weight changes the image", extra=ex)
             # non-negative weights: pixels >= 0, total <= total weight
             ctx.valid()
-            if both.min() < -1e-15 * scale or both.sum() > wts[i] + wts[j] + 1e-12 * scale:
+            if swts[i] >= 0 and swts[j] >= 0 and (both.min() < -1e-15 * scale or both.sum() > wts[i] + wts[j] + 1e-12 * scale):
                 ctx.violation("mass-bounds", "negative pixel or pixel total above the total weight",
                               observed=[float(both.min()), float(both.sum())], expected=[0.0, wts[i] + wts[j]], extra=ex)
         ctx.outcome(np.round(single[0], 9).tolist())
